@@ -128,18 +128,18 @@ func (c *codec) encodeBodyUncompressed(header *Header, body *Body, dest io.Write
 			return fmt.Errorf("cannot encode body tracing id: %w", err)
 		}
 	}
-	if header.Flags.Contains(primitive.HeaderFlagCustomPayload) {
-		if header.Version < primitive.ProtocolVersion4 {
-			return fmt.Errorf("custom payloads are not supported in protocol version %v", header.Version)
-		} else if err = primitive.WriteBytesMap(body.CustomPayload, dest); err != nil {
-			return fmt.Errorf("cannot encode body custom payload: %w", err)
-		}
-	}
 	if header.Flags.Contains(primitive.HeaderFlagWarning) {
 		if header.Version < primitive.ProtocolVersion4 && body.Warnings != nil {
 			return fmt.Errorf("warnings are not supported in protocol version %v", header.Version)
 		} else if err = primitive.WriteStringList(body.Warnings, dest); err != nil {
 			return fmt.Errorf("cannot encode body warnings: %w", err)
+		}
+	}
+	if header.Flags.Contains(primitive.HeaderFlagCustomPayload) {
+		if header.Version < primitive.ProtocolVersion4 {
+			return fmt.Errorf("custom payloads are not supported in protocol version %v", header.Version)
+		} else if err = primitive.WriteBytesMap(body.CustomPayload, dest); err != nil {
+			return fmt.Errorf("cannot encode body custom payload: %w", err)
 		}
 	}
 	if encoder, err := c.findMessageCodec(body.Message.GetOpCode()); err != nil {
